@@ -36,6 +36,9 @@ STRENGTHENED = [
     ("seeded/C17-c", "operator call inside the callee expression of a call", "C17 (and C19): callee positions - immediately applied lambda, lambda picked from a list, lambda handed through a helper - in the random grammar and in the exhaustive stratum"),
     ("seeded/C18-c", "a lambda-valued argument applied twice with different arguments (shared node rewritten in place)", "typed generator `higher_order`: (lambda f: f(a1) + f(a2))(lambda p: body) in C02 / C18"),
     ("seeded/C19-c", "one-argument call of a function whose name is a piece of a shortcut name", "C19: 30 look-alike function names (pieces, other case, longer names) that must stay unchanged"),
+    ("seeded/C07-d", "a @staticmethod of a typed class called through an object", "C07 model: methods declared @staticmethod / @classmethod, receivers spelled this / me (the latter exposed the genuine defect D33)"),
+    ("seeded/C08-d", "a typed collection whose element type is Any, followed by one more collection operator", "C08 model always has a method without return annotation and an Iterable[Any] / MyIt[Any] source"),
+    ("seeded/C01-d", "two Where meeting in the simplifier, one with a top-level or (same idea as C02-c, reached through the whole pipeline)", "C01: a filter placed directly on a filtered stream is a disjunction in 60% of the cases; C02 catches it unchanged"),
     ("seeded/C08-c", "generic subclass with more type parameters than its base uses", "C08 skeleton: Tag(Box[K], Generic[K,V]), Tag2(Box[V], ...), Swap(Pair[U,T], ...), HalfPair(Pair[T,int]), It2(Iterable[V], ...), TagInts(Tag[int,V]); class names taken from typing. This extension also exposed the genuine defects D29 and D30"),
 ]
 
@@ -74,7 +77,7 @@ def main():
               "| change | what it needs | strengthening |", "|---|---|---|"]
     for a, b, c in STRENGTHENED:
         lines.append(f"| {a} | {b} | {c} |")
-    lines += ["", "Caught at the first attempt: seeded/C19, C19-b, C15, C15-b, C20, C20-b, C16, C16-b, C13, C14, C14-b, C09, C09-b, C12, C12-b, C03, C02-b, C04-b, C04-c, C07-b, C07-c, C08-b, C11-c, C12-c, C13-c, C15-c, C16-c, C20-c.",
+    lines += ["", "Caught at the first attempt: seeded/C19, C19-b, C15, C15-b, C20, C20-b, C16, C16-b, C13, C14, C14-b, C09, C09-b, C12, C12-b, C03, C02-b, C04-b, C04-c, C07-b, C07-c, C08-b, C11-c, C12-c, C13-c, C15-c, C16-c, C20-c, C02-d, C10-d.",
               "Recurring lesson: most seeded changes need either a *naming coincidence* (same binder / method / variable name in two roles) or",
               "*process-level history* (a cache or shared default filled by an earlier query); generators must produce both on purpose.", ""]
     p = os.path.join(HERE, "DESIGN.md")
